@@ -46,12 +46,19 @@ MaskKeys(q, K) == { K[i + 1] : i \in { j \in q.mask : j < Len(K) } }
 
 SigVerifies(q, keyset) == q.by = keyset /\ q.msg = "hash" /\ q.tamper = "none"
 
+\* the aggregate public key is the SUM of the keys at the masked positions: if two positions held
+\* the same key (only possible for round 0 of a chain without round state whose node is already a
+\* ready member - not a reachable ledger state) the sum counts it twice and no signature made by
+\* each member once verifies
+MaskedDistinct(q, K) == Cardinality(MaskKeys(q, K)) = Cardinality(q.mask)
+
 (* ---- what the code does, in its order ---------------------------------- *)
 \* K, thr: key vector and threshold the code derived for the snapshot
 FullVerify(q, K, thr) ==
     /\ thr > 0                              \* "invalid cosi threshold"
     /\ Cardinality(q.mask) >= thr           \* ThresholdVerify: popcount of the mask
     /\ q.mask # {} /\ InRange(q, K)         \* collectAggregateSigners: index >= len(publics)
+    /\ MaskedDistinct(q, K)
     /\ SigVerifies(q, MaskKeys(q, K))       \* A.Verify(message, signature)
 
 CodeFinalWith(q, K, thr) ==
